@@ -539,9 +539,24 @@ fn to_f_tok<D: Dec>(d: &D, fty: &str) -> String {
     })
 }
 
+/// `from_le` gave no value: `skip` when the length is not one the type holds (the request does not apply to it),
+/// `refused` when `try_from_le_bytes` turned down a length it must accept — the check reports that instead of
+/// silently losing the request
+fn no_value<D: Dec>(b: &[u8]) -> String {
+    let must = match D::NAME {
+        "dyn" => !b.is_empty() && b.len() % 4 == 0 && b.len() <= 20,
+        "big" => !b.is_empty() && b.len() % 4 == 0,
+        _ => false,
+    };
+    if must { "refused".into() } else { "skip".into() }
+}
+
 fn first_tok(s: &str) -> (bool, String) {
+    // the grammar is case-insensitive and allows a `+`: the category token is read the same way
+    let s = s.to_ascii_lowercase();
+    let s = s.as_str();
     let neg = s.starts_with('-');
-    let r = s.trim_start_matches('-');
+    let r = s.trim_start_matches(|c| c == '-' || c == '+');
     let tok = if r.starts_with("inf") {
         "inf"
     } else if r.starts_with("nan") {
@@ -600,7 +615,7 @@ fn run_typed<D: Dec>(req0: &[&str]) -> String {
             ["to_int", _, b, ity] => {
                 let Some(b) = unhex(b) else { return "bad".into() };
                 guard(|| {
-                    let Some(d) = D::from_le(&b) else { return "skip".into() };
+                    let Some(d) = D::from_le(&b) else { return no_value::<D>(&b) };
                     to_int_tok_t(d, ity)
                 })
             }
@@ -626,7 +641,7 @@ fn run_typed<D: Dec>(req0: &[&str]) -> String {
             ["to_float", _, b, fty] => {
                 let Some(b) = unhex(b) else { return "bad".into() };
                 guard(|| {
-                    let Some(d) = D::from_le(&b) else { return "skip".into() };
+                    let Some(d) = D::from_le(&b) else { return no_value::<D>(&b) };
                     to_f_tok_t(d, fty)
                 })
             }
@@ -677,7 +692,7 @@ fn run_typed<D: Dec>(req0: &[&str]) -> String {
         ["format", _, b] => {
             let Some(b) = unhex(b) else { return "bad".into() };
             guard(|| {
-                let Some(d) = D::from_le(&b) else { return "skip".into() };
+                let Some(d) = D::from_le(&b) else { return no_value::<D>(&b) };
                 let s = d.to_string();
                 let g = format!("{:?}", d);
                 // formatter options (width, fill, alignment, sign, precision, alternate) are part of the public Display /
@@ -694,7 +709,7 @@ fn run_typed<D: Dec>(req0: &[&str]) -> String {
         ["roundtrip", _, b] => {
             let Some(b) = unhex(b) else { return "bad".into() };
             guard(|| {
-                let Some(d) = D::from_le(&b) else { return "skip".into() };
+                let Some(d) = D::from_le(&b) else { return no_value::<D>(&b) };
                 let s = d.to_string();
                 // formatter options must not panic either (see `format`)
                 let _ = format!("{:3}|{:>40}|{:<5}|{:^7}|{:+}|{:08}|{:.2}|{:#?}|{:*^w$}|{:w$}", d, d, d, d, d, d, d, d, d, d, w = 1usize);
@@ -716,7 +731,7 @@ fn run_typed<D: Dec>(req0: &[&str]) -> String {
         ["classify", _, b] => {
             let Some(b) = unhex(b) else { return "bad".into() };
             guard(|| {
-                let Some(d) = D::from_le(&b) else { return "skip".into() };
+                let Some(d) = D::from_le(&b) else { return no_value::<D>(&b) };
                 let c = d.cls();
                 let bits: String = c.iter().map(|x| if *x { '1' } else { '0' }).collect();
                 let (neg, tok) = first_tok(&d.to_string());
@@ -726,7 +741,7 @@ fn run_typed<D: Dec>(req0: &[&str]) -> String {
         ["to_int", _, b, ity] => {
             let Some(b) = unhex(b) else { return "bad".into() };
             guard(|| {
-                let Some(d) = D::from_le(&b) else { return "skip".into() };
+                let Some(d) = D::from_le(&b) else { return no_value::<D>(&b) };
                 to_int_tok(&d, ity)
             })
         }
@@ -752,7 +767,7 @@ fn run_typed<D: Dec>(req0: &[&str]) -> String {
         ["to_float", _, b, fty] => {
             let Some(b) = unhex(b) else { return "bad".into() };
             guard(|| {
-                let Some(d) = D::from_le(&b) else { return "skip".into() };
+                let Some(d) = D::from_le(&b) else { return no_value::<D>(&b) };
                 to_f_tok(&d, fty)
             })
         }
@@ -772,7 +787,7 @@ fn run_typed<D: Dec>(req0: &[&str]) -> String {
         ["bytes", _, b] => {
             let Some(b) = unhex(b) else { return "bad".into() };
             guard(|| {
-                let Some(d) = D::from_le(&b) else { return "skip".into() };
+                let Some(d) = D::from_le(&b) else { return no_value::<D>(&b) };
                 match D::be_api(&b) {
                     Some((be, fb)) => format!("api {} {} {}", hex(&d.le()), hex(&be), hex(&fb)),
                     None => {
